@@ -599,3 +599,83 @@ Theorem discard_sp_normal : forall s me h t,
   active s' = true /\ stack s' = KInst (h :: t) :: stack s /\ cur s' = CRet /\ log s' = log s /\
   cur (step s') = CRun h /\ stack (step s') = KInst t :: stack s.
 Proof. intros s me h t A s'. subst s'. unfold sp_dispose. rewrite A. cbn. repeat split; reflexivity. Qed.
+
+(* ====================================================================================================
+   4. C04, step level: where the result of a finished body goes, failed start(promise), unstarted frames
+   ==================================================================================================== *)
+Lemma upd_same : forall A (m : nat -> A) k v, upd m k v k = v.
+Proof. intros. unfold upd. rewrite Nat.eqb_refl. reflexivity. Qed.
+Lemma upd_other : forall A (m : nat -> A) k v x, x <> k -> upd m k v x = m x.
+Proof. intros. unfold upd. destruct (Nat.eqb_neq x k) as (_&H'). rewrite (H' H). reflexivity. Qed.
+
+(* the body of c ends with r: r is stored in exactly the bound cell, the frame is destroyed once (one EFree, status Done),
+   and control goes to the party waiting for that cell — to nobody when detached *)
+Theorem finish_delivery : forall s c r,
+  let s' := finish s c r in
+  stat (cs s' c) = Done /\ result (cs s' c) = r /\ script (cs s' c) = [] /\
+  (forall k, k <> c -> cs s' k = cs s k) /\
+  match bound (cs s c) with
+  | BNone => fs s' = fs s /\ queue s' = queue s /\ cur s' = CRet /\ log s' = EFree c :: EFin c r :: log s
+  | BFut f =>
+      fstt (fs s' f) = FReady r /\ (forall g, g <> f -> fs s' g = fs s g) /\
+      queue s' = queue s ++ removelast (chain_of (fs s f)) /\
+      cur s' = match chain_of (fs s f) with [] => CRet | ch => CRun (last ch 0) end
+  | BParent p =>
+      fs s' = fs s /\ queue s' = queue s /\ cur s' = CRun p /\ log s' = ERun p :: EFree c :: EFin c r :: log s
+  end.
+Proof.
+  intros s c r s'. subst s'. unfold finish. destruct (bound (cs s c)) as [|f|p] eqn:B; cbn [fst snd].
+  - cbn. rewrite upd_same. cbn. repeat split; auto. intros; apply upd_other; auto.
+  - destruct (chain_of (fs (ev s (EFin c r)) f)) as [|h t] eqn:E; cbn in E; rewrite E.
+    + cbn. rewrite !upd_same. cbn. rewrite app_nil_r. repeat split; auto; intros; apply upd_other; auto.
+    + unfold run_c. cbn. enq_all_rw. cbn. rewrite !upd_same. cbn. repeat split; auto; intros; apply upd_other; auto.
+  - unfold run_c. cbn. rewrite upd_same. cbn. repeat split; auto. intros; apply upd_other; auto.
+Qed.
+
+(* the parent resumed by a finished child reads exactly the child's result *)
+Theorem coawait_delivery : forall s p c rest,
+  cur s = CRun p -> script (cs s p) = IGotC c :: rest ->
+  log (step s) = EGot p (2 * c + 1) (result (cs s c)) :: log s /\ cur (step s) = CRun p.
+Proof.
+  intros s p c rest C S. unfold step. rewrite C, S. cbn. split; auto. unfold upd.
+  destruct (Nat.eqb c p) eqn:E; auto. apply Nat.eqb_eq in E. subst c. reflexivity.
+Qed.
+
+(* start(promise) on an already claimed promise: returns false, nothing is bound, nothing runs, the handle stays in the
+   async<T> object (status Created) *)
+Theorem start_claimed_promise : forall s me c f aw,
+  is_created s c = true -> fstt (fs s f) <> FNone -> claimed (fs s f) = true -> (aw && Nat.eqb me 0 = false) ->
+  let s' := exec s me (IStartP c f aw) in
+  log s' = ERetB me false :: log s /\ cs s' = cs s /\ fs s' = fs s /\ queue s' = queue s /\ cur s' = cur s /\
+  stack s' = stack s /\ is_created s' c = true.
+Proof.
+  intros s me c f aw K F Cl A s'. subst s'. cbn [exec].
+  assert (E : ensure_made s c = s).
+  { unfold ensure_made. unfold is_created in K. destruct (stat (cs s c)); try discriminate; reflexivity. }
+  rewrite E, K, A. cbn. destruct (fstt (fs s f)) eqn:FS; [congruence| |]; rewrite Cl; cbn; repeat split; auto.
+Qed.
+
+(* ... and the destructor of that async<T> (or of any never-started one) destroys the frame: exactly one EFree, no Run *)
+Theorem drop_unstarted : forall s me c,
+  is_created s c = true ->
+  let s' := exec s me (IDrop c) in
+  log s' = EFree c :: log s /\ stat (cs s' c) = Done /\ cur s' = cur s /\ queue s' = queue s /\ fs s' = fs s /\
+  is_created s' c = false.
+Proof.
+  intros s me c K s'. subst s'. cbn [exec]. rewrite K. cbn. unfold is_created. cbn. rewrite upd_same. cbn. repeat split; auto.
+Qed.
+
+(* a successful start(promise) binds the coroutine to exactly that promise's future and claims it *)
+Theorem start_free_promise : forall s me c f,
+  is_created s c = true -> fstt (fs s f) <> FNone -> claimed (fs s f) = false -> active s = true ->
+  let s' := exec s me (IStartP c f false) in
+  bound (cs s' c) = BFut f /\ stat (cs s' c) = Started /\ claimed (fs s' f) = true /\ fstt (fs s' f) = fstt (fs s f) /\
+  queue s' = queue s ++ [c] /\ cur s' = cur s /\
+  log s' = EEnq c me why_discard :: ERetB me true :: EBind c (BFut f) :: log s.
+Proof.
+  intros s me c f K F Cl A s'. subst s'. cbn [exec].
+  assert (E : ensure_made s c = s).
+  { unfold ensure_made. unfold is_created in K. destruct (stat (cs s c)); try discriminate; reflexivity. }
+  rewrite E, K. cbn. destruct (fstt (fs s f)) eqn:FS; [congruence| |]; rewrite Cl; unfold sp_dispose; cbn; rewrite A; cbn;
+    rewrite !upd_same; cbn; repeat split; auto.
+Qed.
